@@ -13,6 +13,9 @@ OWN = "C09"
 
 def run(chk, tier):
     c08.run_variant(chk, tier, "checked", OWN)
+    # the unmodified kernel with every operand placed against an inaccessible page: an access outside the buffer
+    # (also by raw memcpy / pointer arithmetic that Cython's bounds checks cannot see) kills the child process
+    c08.run_variant(chk, tier, "guard", OWN)
     if tier == "thorough":
         c08.run_variant(chk, tier, "asan", OWN)
     chk.exhaustive = True
